@@ -22,7 +22,7 @@ def main():
     ap.add_argument("--tier", default="quick")
     args = ap.parse_args()
     verif = os.path.dirname(os.path.dirname(os.path.abspath(__file__)))
-    seed_dir = os.path.join(args.src, "SEED")
+    seed_dir = os.path.join(args.src, "SEED") if os.path.isdir(os.path.join(args.src, "SEED")) else args.src
     name = args.name or args.prop
     dst = os.path.join(verif, "seeded", name)
     patch = os.path.join(seed_dir, "patch.diff")
@@ -70,9 +70,10 @@ def main():
                 print("  %s seed=%d -> rc=%d (%.0fs) %s" % (c, seed, rc, time.time() - t0, (" | ".join(first))[:300]))
                 shutil.rmtree(ev, ignore_errors=True)
         os.makedirs(dst, exist_ok=True)
-        shutil.copy(patch, dst + "/patch.diff")
-        shutil.copy(demo, dst + "/demo.py")
-        meta2 = dict(meta)
+        if os.path.abspath(seed_dir) != os.path.abspath(dst):
+            shutil.copy(patch, dst + "/patch.diff")
+            shutil.copy(demo, dst + "/demo.py")
+        meta2 = {k: v for k, v in meta.items() if k not in ("our_checks", "confirmed_by_us")}
         meta2["breaks_property"] = args.prop
         meta2["confirmed_by_us"] = {"base": sh("git -C /repo rev-parse --short HEAD")[1].strip(),
                                     "demo_rc_without_change": rc0, "demo_rc_with_change": rc1,
